@@ -483,6 +483,41 @@ func (e *verifEnv) AgeBootstrapOTP(user string, d time.Duration) error {
 	return e.State.SaveUserProfile(user, p)
 }
 
+// HookDBs re-opens the primary and the cache database through the interposing
+// driver (labels "primary:<env>" and "cache:<env>").
+func (e *verifEnv) HookDBs() (primaryLabel, cacheLabel string, err error) {
+	primaryLabel, cacheLabel = "primary:"+e.Opts.Name, "cache:"+e.Opts.Name
+	pdb, err := verifOpenHooked(primaryLabel, e.PrimaryDBPath())
+	if err != nil {
+		return "", "", err
+	}
+	cdb, err := verifOpenHooked(cacheLabel, e.CacheDBPath())
+	if err != nil {
+		return "", "", err
+	}
+	old1, old2 := e.State.db, e.State.cacheDB
+	e.State.db, e.State.cacheDB = pdb, cdb
+	old1.Close()
+	old2.Close()
+	return primaryLabel, cacheLabel, nil
+}
+
+func (e *verifEnv) PrimaryDBPath() string { return filepath.Join(e.Dir, "data", profileDBFilename) }
+func (e *verifEnv) CacheDBPath() string   { return filepath.Join(e.Dir, "data", cachedDBFilename) }
+
+// SetOutage closes / opens the gate of the primary store and sets the primary
+// read deadline accordingly (short while out, long while healthy so that a
+// loaded machine cannot fake an outage).
+func (e *verifEnv) SetOutage(g *verifOutage, on bool) {
+	if on {
+		g.Close()
+		e.State.remoteDBQueryTimeout = 120 * time.Millisecond
+	} else {
+		g.Open()
+		e.State.remoteDBQueryTimeout = 20 * time.Second
+	}
+}
+
 // CA certificates exactly as main() adds them to the TLS client pool.
 func (e *verifEnv) ClientCAPool() *x509.CertPool {
 	pool := x509.NewCertPool()
